@@ -12,8 +12,8 @@ RULE = ('source handlers built from properly nested if / if-else / repeat while 
         'items, loop bodies up to the one-byte back-jump limit); while loops in near-counting form; list loops; constructs '
         'first, last or sole in a body; 1-3 handlers per script. The emitted Lingo is parsed back and compared with the '
         'source tree, and must contain no jz / jump line. Non-trivial = at least two compound constructs; distinct by SHA1.')
-EXPLANATION = ('Coq: the bounded exact characterisation (for every skeleton up to the stated size the model decompiles exactly the '
-               'source nesting iff the handler contains none of the listed patterns), by computation inside the kernel; and an '
+EXPLANATION = ('Coq: for every skeleton of the exhaustive enumeration up to the stated size (exit repeat at every legal position) the model '
+               'decompiles exactly the source nesting, by computation inside the kernel; and an '
                'UNBOUNDED theorem for exit-free nests of if / if-else / repeat while / repeat with (up, down) over straight-line statements (any depth, any body length, any '
                'expression as condition): compiled code -> stack machine -> condition_detect / loop_detect yields exactly the '
                'source nesting (induction over the program and over the nesting depth); see coq/Props/PropC03.v.')
@@ -22,13 +22,11 @@ ASSUMPTIONS = P2.ASSUMPTIONS + ['a while loop that is literally in counting-loop
 LEVEL_TEXT = ('Proof: (1) unbounded, by induction: for every exit-free nest of if / if-else / repeat while / repeat with (up, down) over assignments and statement calls (any depth, any '
               'number of statements, any expression as condition, only bounds the jump offsets of the format) the stack machine followed by '
               'condition_detect and loop_detect rebuilds exactly the source nesting (C03_exit_free_nests_rebuilt_unbounded, C03_counting_loops_rebuilt_unbounded). '
-              '(2) bounded for the full construct set, see note: a Coq theorem, by computation in the kernel over the faithful model '
-              'of JumpOpcode / condition_detect / break_detect / loop_detect, that for EVERY skeleton with at most 3 compound '
-              'constructs (bodies of one or two items, every legal exit-repeat position) decompile(compile h) rebuilds exactly the '
-              'source nesting if and only if h contains none of the four listed exit-repeat patterns; the bound is in the theorem '
-              'statement. The correspondence check ties the model to /repo on the same enumeration (and one size further in the '
-              'thorough tier) plus random deep shapes.')
-LEVEL_NOTE = 'The unbounded statement over ALL constructs is refuted on the unchanged tree (four open findings P1-P4, all about exit repeat); proved are the unbounded theorems for exit-free nests of if / if-else / repeat while / repeat with (up, down) and the exact bounded characterisation for the full construct set (adds exit repeat; list loops are covered by the correspondence only). Deeper shapes with loops / else are covered by the correspondence and the parser oracle.'
+              '(2) bounded and exhaustive for the full construct set including exit repeat at every legal position: a Coq theorem, by computation in the kernel '
+              'over the faithful model of JumpOpcode / condition_detect / break_detect / loop_detect, that EVERY skeleton with at most 2 compound constructs (bodies of one or two items) '
+              'and every skeleton with at most 4 constructs (one-item bodies) decompiles to exactly the source nesting; the bound is in the theorem statement. '
+              'The correspondence check ties the model to /repo on the same enumeration (and one size further in the thorough tier) plus random deep shapes.')
+LEVEL_NOTE = 'Until the repair ca070ba of /repo the full statement was refuted (four exit-repeat patterns, findings P1-P4, now fixed). Unbounded: the exit-free fragment; exit repeat and list loops are covered by the bounded theorem, the correspondence and the parser oracle.'
 TECHNIQUE = 'Coq proof by induction (exit-free if / if-else / repeat while / repeat with nests, unbounded) and by kernel computation (vm_compute) over an exhaustive bounded enumeration (full construct set, exact iff-characterisation) + model/implementation correspondence'
 
 def gen_cases(rng, tier):
@@ -156,13 +154,7 @@ def judge(c, ir, ms):
     f = H.lingo_oracle(c['script'], lingo)
     mt = H.text_pair(ms)
     if f:
-        pats = sorted(H.script_patterns(c['script']))
-        fid = None
-        # attributed to an open finding only when the handler contains one of its patterns AND the implementation still
-        # behaves exactly like the model of the unchanged code on it
-        if pats and mt is not None and mt[0] == lingo:
-            fid = 'C03-' + pats[0]
-        out.append((f, 'property', fid))
+        out.append((f, 'property', None))
         return out
     if ms is not None:
         if mt is None:
